@@ -209,6 +209,9 @@ def natives(ctx, thorough):
                     f"degenerate levels: the same generator ({ne} seeded fields, own stream) with the level set to the interior float32 sample nearest to the drawn level, plus one recorded 5x5x5 witness volume "
                     "(c06_native.degenerate_witness_volume); both gradient directions", o.evaluations, o.cases, o.as_list(),
                     rule="distinct volumes whose level equals one of their samples (vertices coincide with grid nodes)")
+    o = outs["no_degenerate"] = guard("bounded/no_degenerate", lambda: N.run_no_degenerate(seed))
+    ctx.add_bounded("mc.marching_cubes/bounded/degenerate_faces_removed", "6 seeded integer-valued quadratic fields whose level passes exactly through grid nodes, allow_degenerate=False: valid indices, "
+                    "per-vertex arrays, triangles within one cell, same enclosed volume as with the zero-area triangles kept", o.evaluations, o.cases, o.as_list(), rule="distinct (field, level, spacing)")
     o = outs["volume"] = guard("bounded/volume", lambda: N.run_volume_convergence(seed, 24 if thorough else 8))
     ctx.add_bounded("mc.marching_cubes/bounded/volume_convergence",
                     f"{24 if thorough else 8} seeded rotated ellipsoids (semi-axes 0.55..1.0) as fields 1 - |M x| on three nested anisotropic grids (about 10, 20, 40 points per axis), alternating directions",
